@@ -92,7 +92,7 @@ def check_batch(chk, progs, tag, key, ms_must_agree):
         if ms_must_agree and uns:
             i = smallest(uns, meta, 1)[0]
             chk.disagree("a collision-free program leaves the fragment M models (MUnsup)", {"program": meta[i][0], "implementation": meta[i][1]})
-    maybe = [i for i in bad if meta[i][1][0] == "err" and meta[i][1][1] in c01.possible_kinds(meta[i][0]) and meta[i][0].get("nerr", 2) > 1]
+    maybe = [i for i in bad if meta[i][1][0] == "err" and meta[i][1][1] in c01.possible_kinds(meta[i][0]) and len(c01.possible_kinds(meta[i][0])) > 1]   # (the generator's own count of error sources, "nerr", undercounts: looped fills can duplicate names)
     if maybe:
         still = coq_eval(tag + "l", "core_case", "check_mech_lenient", [terms[i] for i in maybe])
         ok = set(maybe) - {maybe[i] for i in still}
